@@ -26,7 +26,7 @@ class Ctx:
         self.seed = seed
         self.level = level
         self.t0 = time.time()
-        self.scratch = tempfile.mkdtemp(prefix='vf-%s-' % prop, dir=os.environ.get('VERIF_SCRATCH', '/tmp'))
+        self.scratch = tempfile.mkdtemp(prefix='vf-%s-' % prop, dir=_scratch_base())
         os.chmod(self.scratch, 0o755)
         self.violations: Dict[str, dict] = {}
         self.known_hits: Dict[str, int] = {}
@@ -151,6 +151,21 @@ class Ctx:
             except OSError:
                 pass
         shutil.rmtree(self.scratch, ignore_errors=True)
+
+
+def _scratch_base() -> str:
+    """A memory file system if there is one with room (the checks create and remove hundreds of thousands of small
+    files and directories), else /tmp."""
+    d = os.environ.get('VERIF_SCRATCH')
+    if d:
+        return d
+    try:
+        st = os.statvfs('/dev/shm')
+        if os.access('/dev/shm', os.W_OK | os.X_OK) and st.f_bavail * st.f_frsize > 4 * 2 ** 30:
+            return '/dev/shm'
+    except OSError:
+        pass
+    return '/tmp'
 
 
 def _as_list(x):
